@@ -71,6 +71,11 @@ def gen_cases(tier, seed):
                                 continue
                             cases.append(dict(kind="interp", grid=grid, batch=batch, cset=cs, kernel=kn, param=prm,
                                               width=w, real=real))
+                        if nd > 1 and not batch and cs in ("lattice", "random") and isinstance(w, list):
+                            # per-axis kernel parameters that differ between the axes (both orderings)
+                            pl = ([0, 2, 1] if kn == "spline" else [2.0, 8.0, 4.0])[:nd]
+                            for pp in (pl, pl[::-1]):
+                                cases.append(dict(kind="interp", grid=grid, batch=batch, cset=cs, kernel=kn, param=pp, width=w, real=False))
     return cases
 
 
@@ -132,6 +137,7 @@ def kern_val(kn, prm, x):
 def ref_weights(grid, coord, kn, prm, width):
     nd = len(grid)
     w = [float(width)] * nd if np.isscalar(width) else [float(v) for v in width]
+    prms = [prm] * nd if np.isscalar(prm) else list(prm)
     N = dense.prod(grid)
     W = np.zeros((coord.shape[0], N))
     strides = [dense.prod(grid[d + 1:]) for d in range(nd)]
@@ -142,7 +148,7 @@ def ref_weights(grid, coord, kn, prm, width):
             h = w[d] / 2.0
             lo = int(np.ceil(c - h))
             hi = int(np.floor(c + h))
-            per_axis.append([(i % grid[d], kern_val(kn, prm, (i - c) / h)) for i in range(lo, hi + 1)])
+            per_axis.append([(i % grid[d], kern_val(kn, prms[d], (i - c) / h)) for i in range(lo, hi + 1)])
         for combo in itertools.product(*per_axis):
             flat = sum(ix * st for (ix, _), st in zip(combo, strides))
             val = 1.0
@@ -157,6 +163,7 @@ def run_case(case, seed):
     grid, batch = case["grid"], case["batch"]
     kn, prm, width = case["kernel"], case["param"], case["width"]
     wid = tuple(width) if isinstance(width, list) else width
+    prm_arg = tuple(prm) if isinstance(prm, list) else prm
     coord = coord_set(case["cset"], grid, seed)
     f32 = coord.dtype == np.float32
     dt = np.float64 if case["real"] else np.complex128
@@ -173,9 +180,9 @@ def run_case(case, seed):
     osh = batch + [npts]
     c0 = coord.copy()
     M = dense.dense_of(lambda x: sp.interpolate(x.astype(dt) if not case["real"] else np.real(x).astype(dt), coord,
-                                                kernel=kn, width=wid, param=prm), ish, osh)
+                                                kernel=kn, width=wid, param=prm_arg), ish, osh)
     G = dense.dense_of(lambda y: sp.gridding(y.astype(dt) if not case["real"] else np.real(y).astype(dt), coord, ish,
-                                             kernel=kn, width=wid, param=prm), osh, ish)
+                                             kernel=kn, width=wid, param=prm_arg), osh, ish)
     trans = M.shape[1] + G.shape[1]
     e1 = dense.relerr(M, W.astype(complex))
     if not e1 <= tol:
@@ -190,13 +197,13 @@ def run_case(case, seed):
     if not case["real"] and not viol:
         # complex homogeneity + Linop wrappers agree with the functions
         x = (dense.dense_vec(M.shape[1], 3) * (1 + 1j)).reshape(ish)
-        A = sp.linop.Interpolate(ish, coord, kernel=kn, width=wid, param=prm)
+        A = sp.linop.Interpolate(ish, coord, kernel=kn, width=wid, param=prm_arg)
         y = A(x)
         trans += 2
         ref = (W @ x.ravel()).reshape(osh)
         if list(y.shape) != osh or not np.abs(y - ref).max() <= tol * max(1.0, np.abs(ref).max()) * 10:
             viol.append(dict(oracle="linop-vs-reference", key=dict(site="linop.Interpolate", when=when), detail="Linop result differs from W_ref x"))
-        Gd = sp.linop.Gridding(ish, coord, kernel=kn, width=wid, param=prm)
+        Gd = sp.linop.Gridding(ish, coord, kernel=kn, width=wid, param=prm_arg)
         z = Gd(y)
         ref2 = (W.T @ ref.ravel()).reshape(ish)
         if list(z.shape) != ish or not np.abs(z - ref2).max() <= tol * max(1.0, np.abs(ref2).max()) * 10:
